@@ -12,7 +12,7 @@ from common import Ctx, driver_json
 import core_lib as cl
 
 PROPERTY = "C02"
-LEAN_MODULES = ["Proofs.C02", "Proofs.C02.Rerun", "Proofs.C02.DrivingMarket"]
+LEAN_MODULES = ["Proofs.C02", "Proofs.C02.Rerun", "Proofs.C02.DrivingMarket", "Proofs.C02.Rerun2"]
 DRIVERS = ["driver_core"]
 RULE = ("pairs of random histories sharing a prefix of k bars (k random, suffixes of different length and content) x market mix {probe market with "
         "data-dependent value, two probe markets minutely+hourly, real UniLpMarket, Uni+Aave, Uni+Deribit (hourly order books; the histories part on "
@@ -36,7 +36,9 @@ RULE = ("pairs of random histories sharing a prefix of k bars (k random, suffixe
         "prefix class, what the strategy did, triggers fired, outcome)")
 TRUSTED = ["in-place mutation of the supplied pandas frames and rerun equality are decided by measurement only (sha1 of a canonical dump incl. nested "
            "order-book lists, at construction vs after hand-over vs after the run; second run of the same strategy object on the same frames) — a pure "
-           "model cannot exhibit aliasing; the trigger part of the rerun clause is also a theorem (Proofs/C02/Rerun.lean)",
+           "model cannot exhibit aliasing of pandas frames; the trigger part of the rerun clause is also a theorem (Proofs/C02/Rerun.lean; "
+           "Proofs/C02/Rerun2.lean for the code's order — initialize(), then reset — with the saved trigger list modelled as copy or alias "
+           "behind the generated flag coreRunSavesTriggerListByCopy)",
            "that the implementation's lookups are the model's views is tied by the two-suffix runs and by comparing the views with the real helpers "
            "(_add_statistic_column price column, SqueethMarket.get_twap_price window, DeribitOptionMarket.set_market_status hourly row)"]
 ASSUMPTIONS = ["the strategy reads the data only through the snapshots it is handed (a strategy may read self.data ahead of time; that is outside the property)",
